@@ -38,6 +38,13 @@ def corpus(rng, thorough):
     vs += [1.0, True, 1.0, 0.0, False, 0.0, -0.0, 0.0, 1, 1.0, True, 1, None, 0, False]
     # large before compression, small after it (the server's item limit applies to what is stored)
     vs += [b"\x00" * ((1 << 20) + 1), "a" * 1_100_000, [0] * 600_000]
+    # incompressible as a whole although a part of it compresses: a compressible head (of 1, 4 and 8 KiB) or tail on random data - what is stored must not
+    # be longer than the value
+    import random as _rnd
+    _r = _rnd.Random(20260101)
+    noise = lambda n_: bytes(_r.randrange(256) for _ in range(n_))
+    vs += [noise(4000) + b"\x00" * 96 + noise(100_000), b"\x00" * 400 + noise(3696) + noise(60_000), noise(900) + b"ab" * 62 + noise(30_000), noise(8000) + b"\x00" * 192 + noise(50_000),
+           noise(50_000) + b"\x00" * 64, noise(5000)]
     # the other built-in types that compare equal to a basic one without being it (a bytearray equals the bytes it holds, a range / dict view ...)
     import array, collections, datetime, decimal, fractions
     vs += [bytearray(b"abc"), bytearray(), bytearray(b"12"), bytearray(range(256)) * 3, [bytearray(b"in a list")], range(5), range(0), slice(1, 5, 2),
